@@ -929,13 +929,23 @@ where
     F: Fn(&essential_types::predicate::Node) -> bool,
 {
     let mut deferred = HashSet::new();
-    for (ix, node) in predicate.nodes.iter().enumerate() {
-        if is_deferred(node) {
-            deferred.insert(ix as u16);
+    // Start from the nodes that are deferred themselves.
+    let mut pending: Vec<u16> = predicate
+        .nodes
+        .iter()
+        .enumerate()
+        .filter(|(_, node)| is_deferred(node))
+        .map(|(ix, _)| ix as u16)
+        .collect();
+    // Every descendant of a deferred node is deferred too,
+    // regardless of how the nodes are numbered.
+    while let Some(ix) = pending.pop() {
+        if !deferred.insert(ix) {
+            continue;
         }
-        if deferred.contains(&(ix as u16)) {
-            for child in predicate.node_edges(ix).expect("Already checked") {
-                deferred.insert(*child);
+        for child in predicate.node_edges(ix as usize).unwrap_or_default() {
+            if !deferred.contains(child) {
+                pending.push(*child);
             }
         }
     }
